@@ -416,6 +416,7 @@ func (h *H[T]) C19(rc *runCtx) *Violation {
 	sim.Strategy = 1 + sim.Sched.Draw(simrt.NumStrategies-1)
 	sim.StickyP = []int{2, 4, 8, 16}[sim.Sched.Draw(4)]
 	drawInner(sim)
+	drawClock(sim)
 	rc.tally("inner_gap", spA("%d", sim.InnerG))
 	nr, nw := 0, 0
 	for _, t := range p.tasks {
